@@ -1,3 +1,6 @@
+-- root: every model, proof and audit-free module (append new imports at the end)
 import TypifyModel.Model.IntTypes
 import TypifyModel.Model.Integer
 import TypifyModel.Generated.Tables
+import TypifyModel.Proofs.C10
+import TypifyModel.Proofs.C10Findings
